@@ -787,6 +787,7 @@ def rule_text_fidelity(ck, px):
         var = e.exprs[0].args[0].id
         fcalls = {n_.id for n_ in tg.cfg.stmt_nodes(lambda n_: n_.kind == "stmt" and isinstance(n_.ast, ast.Assign) and var in q.assigned_paths(n_.ast) and isinstance(n_.ast.value, ast.Call) and q.call_attr(n_.ast.value) == "filter_whitespace")}
         pre_t = "'<pre>' in %s" % var
+        pre_src = "'<pre>' in self.value"  # the same test on the unfiltered source (value is self.value on that path)
 
         def tr(n_, val):
             return True if n_.id in fcalls else val
@@ -794,10 +795,11 @@ def rule_text_fidelity(ck, px):
         def ed(n_, kind, val):
             return val
 
-        seen = explore(tg.cfg, False, tr, lambda t: t == pre_t, follow_exc=False)
+        seen = explore(tg.cfg, False, tr, lambda t: t in (pre_t, pre_src), follow_exc=False)
         for en in tg.cfg.nodes_for(e.call):
             for facts_, filtered in sorted(seen.get(en.id, ()), key=repr):
-                ck.ob(rid, tg, e.call, filtered or (pre_t, True) in facts_, "text is emitted filtered, except text containing '<pre>' (filtered=%s, pre-known=%s)" % (filtered, (pre_t, True) in facts_), construct="emit filtered=%s pre=%s" % (filtered, (pre_t, True) in facts_))
+                pre_k = (pre_t, True) in facts_ or (pre_src, True) in facts_
+                ck.ob(rid, tg, e.call, filtered or pre_k, "text is emitted filtered, except text containing '<pre>' (filtered=%s, pre-known=%s)" % (filtered, pre_k), construct="emit filtered=%s pre=%s" % (filtered, pre_k))
         # tests that decide whether the emission happens at all (one branch cannot reach it)
         cfg_ = tg.cfg
         em_nodes = {n_.id for n_ in cfg_.nodes_for(e.call)}
@@ -1541,6 +1543,9 @@ def run(ck):
     from .. import x_inline
 
     ck.repo = x_inline.inline_repo(ck.repo, [T], keep=['_parse', '_get_ancestors', '_generate_python', '_format_code', '_create_template', '_find_directive'])
+    from ..x_valuewalk import split_ifexp_assign
+
+    ck.repo = split_ifexp_assign(ck.repo, T, ['generate'])
     guard_obligations(ck, ['_parse', '_get_ancestors', '_generate_python', '_format_code', '_create_template', '_find_directive'])
     ck.rule("C19.raise-class", "every raise statement in the call closure of _parse / _get_ancestors constructs ParseError; a helper raising another class is only called behind a handler that raises ParseError or a membership guard over the values it accepts")
     ck.rule("C19.error-line", "raise_parse_error raises ParseError(message, reader.name, reader.line); ParseError keeps them; consume() advances reader.line by the newlines of exactly the consumed span before moving pos; _parse never raises directly")
